@@ -1010,11 +1010,15 @@ impl<'a> Lexer<'a> {
                 }
                 Some('\\') if !raw => {
                     quote_count = 0;
+                    // The backslash (a single byte) has just been consumed.
+                    let escape_start = it.pos() - 1;
                     // Handle escape sequences
                     if Self::escape(&mut it, &mut text).is_err() {
+                        // The escape may have consumed a multi-byte character:
+                        // the span covers the whole bad sequence, from the backslash.
                         return Some(self.err_span(
                             LexemeError::InvalidEscapeSequence("\\".to_owned()),
-                            start + it.pos() - 1,
+                            start + escape_start,
                             start + it.pos(),
                         ));
                     }
